@@ -38,6 +38,32 @@ Fixpoint insert_sorted (x : N) (l : list N) : list N :=
   end.
 Definition sort_dedup (l : list N) : list N := fold_right insert_sorted [] l.
 
+(* ---- SubroutineEval: the declaration body of a plain subroutine, per calling convention ---- *)
+Definition neg_index (n i : N) : string := ("-" ++ N_to_dec (n - i))%string.
+
+Definition param_instr (o : copts) (r : routine) (i : N) : instr :=
+  match nth_error (r_params r) (N.to_nat i) with
+  | Some (byref, slot) =>
+      if o_use_fp o && negb byref then mkI O_frame_dig [AStr (neg_index (r_nargs r) i)]
+      else mkI O_load [ASlot slot]
+  | None => mkI O_err []
+  end.
+
+Definition main_param (i : N) : instr := mkI O_err [].
+
+Fixpoint index_params (l : list (bool * N)) (i : N) : list (N * (bool * N)) :=
+  match l with [] => [] | x :: t => (i, x) :: index_params t (i + 1)%N end.
+
+Definition decl_body (o : copts) (r : routine) : expr :=
+  if o_use_fp o then
+    ESeq ([EOp O_proto [AInt (r_nargs r); AInt (match r_ret r with TNone => 0 | _ => 1 end)%N] TNone []; ESeq []]
+          ++ map (fun '(i, (_, slot)) =>
+                    EOp O_store [ASlot slot] TNone [EOp O_frame_dig [AStr (neg_index (r_nargs r) i)] TAny []])
+                 (rev (filter (fun x => fst (snd x)) (index_params (r_params r) 0%N)))
+          ++ [r_body r])
+  else
+    ESeq (map (fun '(_, slot) => EOp O_store [ASlot slot] TNone []) (rev (r_params r)) ++ [r_body r]).
+
 (* compileSubroutine for ONE routine (without the recursive descent into callees) *)
 Definition compile_one (o : copts) (sub : option routine) (ast0 : expr) : cres croutine :=
   let ast :=
@@ -52,7 +78,8 @@ Definition compile_one (o : copts) (sub : option routine) (ast0 : expr) : cres c
   | None =>
       if has_bad_continue false ast then CErr (Unsupported "Continue inside a loop header")
       else
-        let '((start, end_), g0) := lower o (mkL subret None None) ast None empty_graph in
+        let pm := match sub with Some r => param_instr o r | None => main_param end in
+        let '((start, end_), g0) := lower o (mkL subret None None pm) ast None empty_graph in
         let '(g1, _) := add_incoming g0 start in
         if negb (validate_tree g1 start) then CErr CrashAssertion
         else
@@ -73,7 +100,7 @@ Definition compile_one (o : copts) (sub : option routine) (ast0 : expr) : cres c
                           | Some e => CErr e
                           | None =>
                               (* deferred_end.nextBlock = block *)
-                              let '((ds, de), ga) := lower o (mkL subret None None) d (Some b) g in
+                              let '((ds, de), ga) := lower o (mkL subret None None pm) d (Some b) g in
                               (* deferred_start.addIncoming() on the fragment alone: edges inside the fragment.
                                  The traversal follows de -> b as well, which appends de to b.incoming; PyTeal
                                  overwrites b.incoming just after, so only the fragment's own lists matter. *)
@@ -118,7 +145,7 @@ Fixpoint compile_rec (fuel : nat) (o : copts) (p : prog) (sub : option routine) 
                        | COk a =>
                            match find_sub p s with
                            | None => CErr (Unsupported "unknown subroutine id")
-                           | Some r => compile_rec f o p (Some r) (r_body r) a
+                           | Some r => compile_rec f o p (Some r) (decl_body o r) a
                            end
                        end) news (COk acc1)
       end
